@@ -33,7 +33,7 @@ func c07Components() []compDef {
 		{name: "c1", args: []string{"flag", "s"}, slots: []string{"", "head"}, stmts: []*tw.Stmt{tw.Text("<c1>\n"), slot("head"), tw.Text("\n"),
 			{Kind: tw.SIf, Branches: []tw.Branch{{Cond: tw.Var("flag"), Body: []*tw.Stmt{tw.Text("ON:"), tw.Print(tw.Var("s"))}}}, HasElse: true, Else: []*tw.Stmt{tw.Text("OFF")}},
 			tw.Text("|"), slot(""), tw.Text("</c1>")}},
-		{name: "components/card", args: []string{"n"}, slots: []string{"body", "foot"}, stmts: []*tw.Stmt{tw.Text("<card "), tw.Print(tw.Bin("+", tw.Var("n"), intLit(1))), tw.Text(" page="), tw.Print(tw.Var("i1")), tw.Text(">"),
+		{name: "components/card.v2", args: []string{"n"}, slots: []string{"body", "foot"}, stmts: []*tw.Stmt{tw.Text("<card "), tw.Print(tw.Bin("+", tw.Var("n"), intLit(1))), tw.Text(" page="), tw.Print(tw.Var("i1")), tw.Text(">"),
 			slot("body"), tw.Text("<hr>"), slot("foot"), tw.Text("</card>\n")}},
 		{name: "c2", args: nil, slots: []string{""}, stmts: []*tw.Stmt{tw.Text("<c2 "), tw.Print(tw.Var("s1")), tw.Text(">"), slot(""), tw.Text("</c2>")}},
 		// nothing is passed to these two: all they show comes from the surrounding loop
@@ -127,8 +127,8 @@ func (u *useGen) use(loopVar string) []*tw.Stmt {
 	}
 	d := defs[rapid.IntRange(0, len(defs)-1).Draw(u.rt, "comp")]
 	ref := d.name
-	if d.name == "components/card" && rapid.Bool().Draw(u.rt, "alias") {
-		ref = "~card"
+	if d.name == "components/card.v2" && rapid.Bool().Draw(u.rt, "alias") {
+		ref = "~card.v2"
 	}
 	u.uses[d.name]++
 	st := &tw.Stmt{Kind: tw.SComponent, Name: ref}
@@ -148,10 +148,10 @@ func (u *useGen) use(loopVar string) []*tw.Stmt {
 		if rapid.IntRange(0, 2).Draw(u.rt, "passSlot") == 0 {
 			continue
 		}
-		st.Slots = append(st.Slots, &tw.Stmt{Kind: tw.SSlot, Name: sn, Body: u.slotBody(loopVar), Text: rapid.SampledFrom([]string{"\n", " ", "\n  ", ""}).Draw(u.rt, "slotWs")})
+		st.Slots = append(st.Slots, &tw.Stmt{Kind: tw.SSlot, Name: sn, Body: u.slotBody(loopVar), Text: rapid.SampledFrom([]string{"\n", " ", "\n  ", "", "\r\n", "\r\n\t", "\t", " \r\n \n"}).Draw(u.rt, "slotWs")})
 	}
 	if len(st.Slots) > 0 {
-		st.Text = rapid.SampledFrom([]string{"\n", "", " "}).Draw(u.rt, "endWs")
+		st.Text = rapid.SampledFrom([]string{"\n", "", " ", "\r\n", "\t\r\n"}).Draw(u.rt, "endWs")
 		return []*tw.Stmt{st, tw.Text(";")}
 	}
 	// a slot-less use must be followed by something that is not whitespace
@@ -308,8 +308,8 @@ func TestC07_Errors(t *testing.T) {
 			bad = &tw.Stmt{Kind: tw.SComponent, Name: "c1", Arg: tw.Obj([]string{"flag", "s"}, []*tw.Expr{tw.Bool(true), tw.Str("s")}), Slots: []*tw.Stmt{{Kind: tw.SSlot, Name: "nosuch", Body: body, Text: "\n"}}, Text: "\n"}
 			mention = "c1"
 		case "undeclared-default-slot":
-			bad = &tw.Stmt{Kind: tw.SComponent, Name: "~card", Arg: tw.Obj([]string{"n"}, []*tw.Expr{intLit(1)}), Slots: []*tw.Stmt{{Kind: tw.SSlot, Name: "", Body: body, Text: "\n"}}, Text: "\n"}
-			mention = "components/card"
+			bad = &tw.Stmt{Kind: tw.SComponent, Name: "~card.v2", Arg: tw.Obj([]string{"n"}, []*tw.Expr{intLit(1)}), Slots: []*tw.Stmt{{Kind: tw.SSlot, Name: "", Body: body, Text: "\n"}}, Text: "\n"}
+			mention = "components/card.v2"
 		case "duplicate-named-slot":
 			bad = &tw.Stmt{Kind: tw.SComponent, Name: "c1", Arg: tw.Obj([]string{"flag", "s"}, []*tw.Expr{tw.Bool(true), tw.Str("s")}), Slots: []*tw.Stmt{{Kind: tw.SSlot, Name: "head", Body: body, Text: "\n"}, {Kind: tw.SSlot, Name: "head", Body: body, Text: "\n"}}, Text: "\n"}
 			mention = "c1"
